@@ -256,6 +256,31 @@ def run(tier):
     for D, cfg, nk in plan:
         dom = D(cfg, nk)
         explore(rep, dom, max_depth=40, binary_pool=map_others if D is MapDomain else set_others)
+    # sets / mappings with the same elements compare equal whatever (consistent) hash function each was built with
+    from ..table import run_table
+    cross = []
+    idcfgs = [c for c in CONFIGS if c[3] == 'id']
+    nk = 3 if tier == 'quick' else 4
+    subsets = [tuple(k for k in range(nk) if (mask >> k) & 1) for mask in range(1 << nk)]
+    for ca, cb in itertools.product(idcfgs, repeat=2):
+        if ca is cb:
+            continue
+        da, db = SetDomain(ca, nk), SetDomain(cb, nk)
+        ma, mb = MapDomain(ca, nk), MapDomain(cb, nk)
+        for sa, sb in itertools.product(subsets, repeat=2):
+            if tier == 'quick' and (len(sa) + len(sb)) > 4:
+                continue
+            A, B = set(sa), set(sb)
+            ea = da.ctor() + ''.join('.add(%d)' % k for k in sa)
+            eb = db.ctor() + ''.join('.add(%d)' % k for k in reversed(sb))
+            exp = (A == B, A != B, A <= B, A >= B, A < B, A > B, len(A | B), len(A & B), len(A - B), len(A ^ B))
+            cross.append({'sig': 'C17|cross-hash|set|%s vs %s|%r %r' % (ca[0], cb[0], sa, sb),
+                          'src': 'let a = %s; let b = %s; (a == b, a != b, a <= b, a >= b, lt(a, b), gt(a, b), (a | b).len(), (a & b).len(), (a - b).len(), (a ^ b).len())' % (ea, eb), 'exp': exp})
+            fa = ma.ctor() + ''.join('.set(%d, %d)' % (k, 10 + k) for k in sa)
+            fb = mb.ctor() + ''.join('.set(%d, %d)' % (k, 10 + k) for k in reversed(sb))
+            cross.append({'sig': 'C17|cross-hash|mapping|%s vs %s|%r %r' % (ca[0], cb[0], sa, sb), 'src': 'let a = %s; let b = %s; (a == b, a != b)' % (fa, fb), 'exp': (A == B, A != B)})
+    rep.bounds['cross_hash_cases'] = len(cross)
+    run_table(rep, cross, {'prelude': []}, chunk=200)
     rep.sample({'domain': 'mapping/identity', 'edge': 'mapping(h, e).set(0, 10) --pop(0)--> {}', 'observers': 'len, lookup/contains/get for every key, entries, keys, values, eq/hash vs fresh'})
     rep.sample({'domain': 'set/mod3-eq', 'edge': 'set(h, e).add(1) --add(4)--> unchanged (4 is equivalent to 1)'})
     rep.assumptions = ['which of several equal keys a collection stores is unspecified: keys are compared through their equivalence class',
